@@ -200,12 +200,12 @@ def run(ctx) -> None:
               f"{norm_text(c)} does not convert from the receiver's current units to the requested units",
               key_detail="call")
     dfa = DataFlow(cu.node)
-    scaled = {}
+    scaled: dict[str, list] = {}
     for st in walk_no_nested(cu.node):
         if isinstance(st, (ast.Assign, ast.AugAssign)):
             tgt = st.targets[0] if isinstance(st, ast.Assign) else st.target
             d = dotted(tgt)
-            if d and d.split(".")[-1] in ("sampling", "offset"):
+            if d and d.split(".")[-1] in ("sampling", "offset") and not d.startswith("self."):
                 nz = FlowNormalizer(dfa, dfa.cfg.node_of(st).idx)
                 if isinstance(st, ast.AugAssign):
                     if not isinstance(st.op, (ast.Mult, ast.Div)):
@@ -216,16 +216,25 @@ def run(ctx) -> None:
                 else:
                     poly = nz.norm(st.value)
                 attr = d.split(".")[-1]
-                # divide out the attribute itself: remaining factor
-                rest = poly * Poly.atom(f"new_copy.{attr}").inverse()
-                scaled[attr] = (rest, st)
+                obj = d.rsplit(".", 1)[0]
+                # divide out the attribute itself (of the copy or of the receiver): remaining factor
+                rest = poly * Poly.atom(f"{obj}.{attr}").inverse()
+                if f"{obj}.{attr}" in rest.atoms() or f"self.{attr}" in poly.atoms():
+                    rest2 = poly * Poly.atom(f"self.{attr}").inverse()
+                    if f"self.{attr}" not in rest2.atoms():
+                        rest = rest2
+                scaled.setdefault(attr, []).append((rest, st))
     ctx.require(set(scaled) == {"sampling", "offset"}, "convert_units no longer rescales sampling and offset")
-    same = scaled["sampling"][0] == scaled["offset"][0]
-    uses_factor = any("get_conversion_factor" in a for a in scaled["sampling"][0].atoms())
-    ctx.check(same and uses_factor, "R-AXISCONV", f"{cu.qualname}:same-factor", cu.loc(scaled["offset"][1]),
-              f"sampling and offset both scaled by {scaled['sampling'][0].key()[:80]}",
-              f"sampling is scaled by {scaled['sampling'][0].key()[:80]} but offset by {scaled['offset'][0].key()[:80]}",
-              key_detail="same-factor")
+    factors_seen = {r.key() for rs in scaled.values() for r, _ in rs}
+    ref = scaled["sampling"][0][0]
+    uses_factor = any("get_conversion_factor" in a for a in ref.atoms())
+    for attr, rs in scaled.items():
+        for rest, st in rs:
+            ctx.check(rest == ref and uses_factor, "R-AXISCONV", f"{cu.qualname}:same-factor {attr}", cu.loc(st),
+                      f"{attr} scaled by {ref.key()[:80]}",
+                      f"`{norm_text(st)[:80]}`: {attr} is scaled by {rest.key()[:90]} while sampling is scaled by "
+                      f"{ref.key()[:80]} — offset and sampling must be converted by the same factor on every path",
+                      key_detail=f"same-factor-{attr}")
     # informational: angular factors vs the length convention
     if factors.get("rad", 0) > factors.get("mrad", 1):
         ctx.info("R-KEYS", f"{MOD}:_conversion_factors", mod.relpath,
